@@ -1427,3 +1427,321 @@ Example ex_order_share :
   | _ => False
   end.
 Proof. exact ex_order_shared. Qed.
+
+(* ================================================================================================== *)
+(* Extension (session 4): the sort file as TEXT - printer, round trip, rejection classes               *)
+(* ================================================================================================== *)
+(* C17/SortFileModel.v: [parse_sort_line] = one iteration of the line loop of fstree_sort_files on a raw buffer
+   (istream_get_line with LTRIM|RTRIM|SKIP_EMPTY, the '#' test, decode_priority, decode_flags, decode_filename:
+   SortModel.parse_line on SortModel.get_lines, repaired code), [print_sort_line] / [print_sort_file] = a printer for
+   the syntax of gensquashfs(1) "SORT FILE FORMAT":  <priority> SP [ '[' kw,kw,.. ']' SP ] <quoted name>.
+   The decimal printer is C16's print_dec (printf of an unsigned), the sign is written in front.
+   Tie: props/C17/lineleg.py (extracted parse_sort_line / print_sort_line vs the decoders of the working tree's
+   sort_by_file.c driven by h_line.c). *)
+From SqfsV Require C16.DescribeModel C16.NumProofs.
+From SqfsV Require Import C17.SortFileModel C17.SortFileProofs.
+Local Open Scope N_scope.
+
+(* which entries the syntax can express: priority strictly inside +-(2^63-1) (what parse_int lets through), path_glob
+   only together with glob, flag word = or of those of the four keyword bits that are set in it *)
+Theorem entry_ok_spelled_out : forall d : directive,
+  entry_ok d <->
+  (- Z.of_N s64lim < d_prio d < Z.of_N s64lim)%Z /\
+  (d_glob d = false -> d_path d = false) /\
+  rebuild_flags (d_flags d) = d_flags d.
+Proof. intro d. reflexivity. Qed.
+
+(* the third clause spelled out: the expressible flag words are exactly the sixteen subsets of
+   {DONT_COMPRESS = 1, DONT_FRAGMENT = 4, DONT_DEDUPLICATE = 8, IGNORE_SPARSE = 16} (values from sqfs/block.h through GenC17.v) *)
+Theorem expressible_flag_words : forall fl : N,
+  rebuild_flags fl = fl <-> In fl [0; 16; 8; 24; 1; 17; 9; 25; 4; 20; 12; 28; 5; 21; 13; 29].
+Proof. exact rebuild_flags_iff. Qed.
+Print Assumptions expressible_flag_words.
+
+(* ---- round trip of one line: every expressible entry, every file name (any bytes: blanks, quotes, backslashes,
+   brackets, '#', even newlines) - the parser returns the entry with the name canonicalised; a name
+   canonicalize_name refuses makes the line malformed ---- *)
+Theorem print_parse_line : forall d : directive, entry_ok d ->
+  parse_line true (print_sort_line d) =
+  match canon_result (d_name d) with
+  | Some nm => LnDir (set_name d nm)
+  | None => LnErr
+  end.
+Proof. exact parse_print_line_gen. Qed.
+Print Assumptions print_parse_line.
+
+(* ... for a canonical name (no leading / trailing / double slash, no '.' component: what fstree_get_path +
+   canonicalize_name produce for a node) the entry itself comes back *)
+Theorem print_parse_line_canonical : forall d : directive, entry_ok d ->
+  canon_result (d_name d) = Some (d_name d) ->
+  parse_line true (print_sort_line d) = LnDir d.
+Proof. exact parse_print_line. Qed.
+Print Assumptions print_parse_line_canonical.
+
+(* ... through istream_get_line: the raw line with no terminator, LF or CRLF; needs a name without newline *)
+Theorem print_parse_raw_line : forall (d : directive) (eol : list N), entry_ok d -> ~ In ch_nl (d_name d) ->
+  eol = [] \/ eol = [ch_nl] \/ eol = [ch_cr; ch_nl] ->
+  parse_sort_line (print_sort_line d ++ eol) =
+  match canon_result (d_name d) with
+  | Some nm => LnDir (set_name d nm)
+  | None => LnErr
+  end.
+Proof. exact parse_sort_line_raw. Qed.
+Print Assumptions print_parse_raw_line.
+
+(* ---- the printer covers everything the parser accepts: the entry decoded from ANY accepted line is expressible, has
+   a canonical name, and its printed form decodes to the same entry (normal form) ---- *)
+Theorem accepted_entry_expressible : forall (line : list N) (d : directive),
+  parse_line true line = LnDir d -> entry_ok d /\ canon_result (d_name d) = Some (d_name d).
+Proof. exact parse_line_entry_ok. Qed.
+Print Assumptions accepted_entry_expressible.
+
+Theorem accepted_line_normal_form : forall (line : list N) (d : directive),
+  parse_line true line = LnDir d -> parse_line true (print_sort_line d) = LnDir d.
+Proof. exact parse_print_normal_form. Qed.
+Print Assumptions accepted_line_normal_form.
+
+(* ---- the whole file: the line reader returns exactly the printed lines, and they decode to the entries ---- *)
+Theorem print_parse_file : forall ds : list directive,
+  Forall entry_ok ds ->
+  Forall (fun d => canon_result (d_name d) = Some (d_name d)) ds ->
+  Forall (fun d => ~ In ch_nl (d_name d)) ds ->
+  get_lines (print_sort_file ds) = map print_sort_line ds /\
+  parse_sort_file (print_sort_file ds) = Some ds /\
+  parse_all true (get_lines (print_sort_file ds)) = Some ds.
+Proof.
+  intros ds H1 H2 H3. split; [exact (get_lines_print_file ds H3)|].
+  split; [exact (parse_print_file ds H1 H2 H3)|].
+  rewrite <- parse_lines_all. exact (parse_print_file ds H1 H2 H3).
+Qed.
+Print Assumptions print_parse_file.
+
+(* ---- END TO END: from the entries through the BYTES of the sort file to what fstree_sort_files assigns.
+   For every match oracle, every file list with the hypotheses of first_match_wins (proved for every tree:
+   file_list_distinct_clean) and every list of expressible entries: the model of the sort pass run on the file
+   printed from the entries succeeds and gives every file exactly the priority and flag word of the first entry
+   that matches it (0 / none if no entry does), in stable priority order ---- *)
+Theorem printed_sort_file_assigns_entries :
+  forall (fnmatch : list N -> list N -> bool -> bool) (paths : list (list N)) (ds : list directive),
+  Forall (fun p => canon_result p <> None) paths ->
+  NoDup (map cpath_of paths) ->
+  Forall entry_ok ds ->
+  Forall (fun d => canon_result (d_name d) = Some (d_name d)) ds ->
+  Forall (fun d => ~ In ch_nl (d_name d)) ds ->
+  exists ns,
+    sort_files fnmatch true paths (print_sort_file ds) = ROk (sel_sort ns) /\
+    Forall2 (fun p n => n_path n = p /\
+                        (n_prio n, n_flags n) =
+                        match find (fun d => line_matches fnmatch d (cpath_of p)) ds with
+                        | Some d => (d_prio d, d_flags d)
+                        | None => (0%Z, 0)
+                        end) paths ns.
+Proof. exact printed_sort_file_assigns. Qed.
+Print Assumptions printed_sort_file_assigns_entries.
+
+(* ---- rejection classes, for both variants of decode_filename ([t]) -------------------------------------------- *)
+(* (1) no number at the start (and not a comment) *)
+Theorem reject_no_priority : forall (t : bool) (c : N) (r : list N),
+  c <> ch_hash -> isdigit c = false ->
+  (c = ch_minus -> match r with d :: _ => isdigit d = false | [] => True end) ->
+  parse_line t (c :: r) = LnErr.
+Proof. exact reject_no_priority_l. Qed.
+Print Assumptions reject_no_priority.
+
+(* (2) priority out of range: the decimal representation of ANY n >= 2^63-1, with or without '-', also when the
+   digit loop itself overflows 64 bits.  With priority_range: accepted <-> strictly inside +-(2^63-1) *)
+Theorem reject_priority_out_of_range : forall (t : bool) (sign : list N) (n : N) (rest : list N),
+  sign = [] \/ sign = [ch_minus] ->
+  match rest with [] => True | c :: _ => isdigit c = false end ->
+  s64lim <= n ->
+  parse_line t (sign ++ C16.DescribeModel.print_dec n ++ rest) = LnErr.
+Proof. exact reject_priority_out_of_range_l. Qed.
+Print Assumptions reject_priority_out_of_range.
+
+(* ... and for every digit string (leading zeros included) whose value is that big *)
+Theorem reject_priority_overflow : forall (t : bool) (sign ds rest : list N),
+  sign = [] \/ sign = [ch_minus] -> ds <> [] -> Forall (fun c => 48 <= c /\ c < 48 + 10) ds ->
+  match rest with [] => True | c :: _ => isdigit c = false end ->
+  s64lim <= fold_left (fun a c => a * 10 + (c - 48)) ds 0 ->
+  parse_line t (sign ++ ds ++ rest) = LnErr.
+Proof. exact reject_priority_overflow_l. Qed.
+Print Assumptions reject_priority_overflow.
+
+(* (3) nothing, or something other than a blank, behind the priority *)
+Theorem reject_no_blank_after_priority : forall (t : bool) (p : Z) (rest : list N),
+  (- Z.of_N s64lim < p < Z.of_N s64lim)%Z ->
+  match rest with [] => True | c :: _ => isspace c = false /\ isdigit c = false end ->
+  parse_line t (print_prio p ++ rest) = LnErr.
+Proof. exact reject_no_blank_after_priority_l. Qed.
+Print Assumptions reject_no_blank_after_priority.
+
+(* (4) '[' without ']' *)
+Theorem reject_missing_rbracket : forall (t : bool) (p : Z) (s : list N),
+  (- Z.of_N s64lim < p < Z.of_N s64lim)%Z -> ~ In ch_rbracket s ->
+  parse_line t (print_prio p ++ ch_space :: ch_lbracket :: s) = LnErr.
+Proof. exact reject_missing_rbracket_l. Qed.
+Print Assumptions reject_missing_rbracket.
+
+(* (5) nothing, or something other than a blank, behind ']' *)
+Theorem reject_no_blank_after_flags : forall (t : bool) (p : Z) (inner after : list N),
+  (- Z.of_N s64lim < p < Z.of_N s64lim)%Z ->
+  Forall (fun c => (c =? ch_rbracket) = false) inner ->
+  match after with [] => True | c :: _ => isspace c = false end ->
+  parse_line t (print_prio p ++ ch_space :: ch_lbracket :: inner ++ ch_rbracket :: after) = LnErr.
+Proof. exact reject_no_blank_after_flags_l. Qed.
+Print Assumptions reject_no_blank_after_flags.
+
+(* (6) unknown flag: some word of the list (unquoted words without ',' and ']'), trimmed, is none of the six keywords -
+   a proper prefix of a keyword, a keyword with a suffix, the manual page's `align`, ... - whatever follows *)
+Theorem reject_unknown_flag : forall (t : bool) (p : Z) (ws : list (list N)) (after : list N),
+  (- Z.of_N s64lim < p < Z.of_N s64lim)%Z ->
+  Forall plain_tok ws -> Forall (Forall (fun c => (c =? ch_rbracket) = false)) ws ->
+  Exists (fun w => known_kw (trim w) = false) ws ->
+  parse_line t (print_prio p ++ ch_space :: ch_lbracket :: join_comma ws ++ ch_rbracket :: after) = LnErr.
+Proof. exact reject_unknown_flag_l. Qed.
+Print Assumptions reject_unknown_flag.
+
+(* the name part behind the priority and an optional rendered flag list: the line is accepted iff decode_filename
+   accepts the name part (the general form the next four classes are instances of) *)
+Theorem line_with_name_part : forall (t : bool) (p : Z) (o : option (list kw)) (c : N) (r : list N),
+  (- Z.of_N s64lim < p < Z.of_N s64lim)%Z -> isspace c = false -> c <> ch_lbracket ->
+  parse_line t (print_prio p ++ ch_space :: flag_prefix o ++ c :: r) =
+  match decode_filename t (c :: r) with
+  | None => LnErr
+  | Some nm => let '(g, pg, fl) := prefix_effect o in LnDir (mkdirective p g pg fl nm)
+  end.
+Proof. exact parse_line_name_part. Qed.
+Print Assumptions line_with_name_part.
+
+(* (7) unterminated quote *)
+Theorem reject_unterminated_quote : forall (t : bool) (p : Z) (o : option (list kw)) (s : list N),
+  (- Z.of_N s64lim < p < Z.of_N s64lim)%Z -> ~ In ch_dquote s ->
+  parse_line t (print_prio p ++ ch_space :: flag_prefix o ++ ch_dquote :: s) = LnErr.
+Proof. exact reject_unterminated_quote_l. Qed.
+Print Assumptions reject_unterminated_quote.
+
+(* (8) trailing garbage behind the closing quote *)
+Theorem reject_trailing_garbage : forall (t : bool) (p : Z) (o : option (list kw)) (s g : list N),
+  (- Z.of_N s64lim < p < Z.of_N s64lim)%Z -> g <> [] ->
+  parse_line t (print_prio p ++ ch_space :: flag_prefix o ++ quote s ++ g) = LnErr.
+Proof. exact reject_trailing_garbage_l. Qed.
+Print Assumptions reject_trailing_garbage.
+
+(* (9) unknown escape sequence *)
+Theorem reject_unknown_escape : forall (t : bool) (p : Z) (o : option (list kw)) (s : list N) (e : N) (r : list N),
+  (- Z.of_N s64lim < p < Z.of_N s64lim)%Z -> e <> ch_dquote -> e <> ch_bslash ->
+  parse_line t (print_prio p ++ ch_space :: flag_prefix o ++ ch_dquote :: escape s ++ ch_bslash :: e :: r) = LnErr.
+Proof. exact reject_unknown_escape_l. Qed.
+Print Assumptions reject_unknown_escape.
+
+(* (10) a name canonicalize_name refuses *)
+Theorem reject_uncanonical_name : forall (p : Z) (o : option (list kw)) (s : list N),
+  (- Z.of_N s64lim < p < Z.of_N s64lim)%Z -> canon_result s = None ->
+  parse_line true (print_prio p ++ ch_space :: flag_prefix o ++ quote s) = LnErr.
+Proof. exact reject_uncanonical_name_l. Qed.
+Print Assumptions reject_uncanonical_name.
+
+(* ---- non-vacuity ---- *)
+(* -12 [glob_no_path,dont_fragment,nosparse] "a b\"c"   (name  a b"c ) *)
+Definition ex_entry : directive := mkdirective (-12)%Z true false 20 [97;32;98;34;99].
+Example ex_print_line :
+  print_sort_line ex_entry =
+  [45;49;50;32;91;103;108;111;98;95;110;111;95;112;97;116;104;44;100;111;110;116;95;102;114;97;103;109;101;110;116;44;
+   110;111;115;112;97;114;115;101;93;32;34;97;32;98;92;34;99;34] /\
+  entry_okb ex_entry = true /\ canon_result (d_name ex_entry) = Some (d_name ex_entry) /\
+  parse_sort_line (print_sort_line ex_entry ++ [ch_cr; ch_nl]) = LnDir ex_entry.
+Proof. vm_compute. repeat split; reflexivity. Qed.
+
+Example ex_entry_ok : entry_ok ex_entry /\ ~ In ch_nl (d_name ex_entry).
+Proof. split; [apply entry_okb_iff; vm_compute; reflexivity | cbn; intuition discriminate]. Qed.
+
+(* int64 edges: the largest and smallest accepted priority print and parse; a non-canonical name comes back canonical *)
+Example ex_print_edges :
+  parse_line true (print_sort_line (mkdirective 9223372036854775806%Z false false 0 [97])) =
+    LnDir (mkdirective 9223372036854775806%Z false false 0 [97]) /\
+  parse_line true (print_sort_line (mkdirective (-9223372036854775806)%Z false false 29 [47;97;47;47;98;47])) =
+    LnDir (mkdirective (-9223372036854775806)%Z false false 29 [97;47;98]) /\
+  entry_okb (mkdirective 9223372036854775807%Z false false 0 [97]) = false /\
+  entry_okb (mkdirective 0%Z false true 0 [97]) = false /\
+  entry_okb (mkdirective 0%Z false false 2 [97]) = false.
+Proof. vm_compute. repeat split; reflexivity. Qed.
+
+(* a two-entry file and the file list of ex_first_match_hyps: the hypotheses of the end-to-end theorem hold, the file
+   is what one would write by hand, and it decodes to the entries *)
+Definition ex_entries : list directive :=
+  [mkdirective 5%Z true true 1 [97;47;42]; mkdirective (-3)%Z false false 16 [98]].
+Example ex_printed_file :
+  Forall entry_ok ex_entries /\
+  Forall (fun d => canon_result (d_name d) = Some (d_name d)) ex_entries /\
+  Forall (fun d => ~ In ch_nl (d_name d)) ex_entries /\
+  print_sort_file ex_entries =
+    [53;32;91;103;108;111;98;44;100;111;110;116;95;99;111;109;112;114;101;115;115;93;32;34;97;47;42;34;10;
+     45;51;32;91;110;111;115;112;97;114;115;101;93;32;34;98;34;10] /\
+  parse_sort_file (print_sort_file ex_entries) = Some ex_entries.
+Proof.
+  split; [repeat constructor; apply entry_okb_iff; vm_compute; reflexivity|].
+  split; [repeat constructor|].
+  split; [repeat constructor; cbn; intuition discriminate|].
+  split; vm_compute; reflexivity.
+Qed.
+
+(* one concrete line per rejection class, in the form of its theorem (the hypotheses are met) *)
+Example ex_reject_classes :
+  (* (1)  x a  and  - 5 a *)
+  parse_line true [120;32;97] = LnErr /\ parse_line true [45;32;53;32;97] = LnErr /\
+  (* (2)  9223372036854775807 a, -9223372036854775807 a, 99999999999999999999 a *)
+  C16.DescribeModel.print_dec 9223372036854775807 ++ [32;97] =
+    [57;50;50;51;51;55;50;48;51;54;56;53;52;55;55;53;56;48;55;32;97] /\
+  parse_line true ([] ++ C16.DescribeModel.print_dec 9223372036854775807 ++ [32;97]) = LnErr /\
+  parse_line true ([ch_minus] ++ C16.DescribeModel.print_dec 9223372036854775807 ++ [32;97]) = LnErr /\
+  parse_line true ([] ++ C16.DescribeModel.print_dec 99999999999999999999 ++ [32;97]) = LnErr /\
+  (* (3)  5a  and  5 *)
+  parse_line true (print_prio 5 ++ [97]) = LnErr /\ parse_line true (print_prio 5 ++ []) = LnErr /\
+  (* (4)  5 [glob a *)
+  parse_line true (print_prio 5 ++ ch_space :: ch_lbracket :: [103;108;111;98;32;97]) = LnErr /\
+  (* (5)  5 [glob]a *)
+  parse_line true (print_prio 5 ++ ch_space :: ch_lbracket :: kw_glob ++ ch_rbracket :: [97]) = LnErr /\
+  (* (6)  5 [glob,glo] a   5 [nosparsex] a   5 [align] a *)
+  print_prio 5 ++ ch_space :: ch_lbracket :: join_comma [kw_glob; [103;108;111]] ++ ch_rbracket :: [32;97] =
+    [53;32;91;103;108;111;98;44;103;108;111;93;32;97] /\
+  parse_line true (print_prio 5 ++ ch_space :: ch_lbracket :: join_comma [kw_glob; [103;108;111]] ++ ch_rbracket :: [32;97]) = LnErr /\
+  parse_line true (print_prio 5 ++ ch_space :: ch_lbracket :: join_comma [kw_nosparse ++ [120]] ++ ch_rbracket :: [32;97]) = LnErr /\
+  parse_line true (print_prio 5 ++ ch_space :: ch_lbracket :: join_comma [[97;108;105;103;110]] ++ ch_rbracket :: [32;97]) = LnErr /\
+  (* (7)  5 [glob] <q>a *)
+  parse_line true (print_prio 5 ++ ch_space :: flag_prefix (Some [KGlob]) ++ ch_dquote :: [97]) = LnErr /\
+  (* (8)  5 <q>a<q> b *)
+  parse_line true (print_prio 5 ++ ch_space :: flag_prefix None ++ quote [97] ++ [32;98]) = LnErr /\
+  (* (9)  5 <q>a\n<q> *)
+  parse_line true (print_prio 5 ++ ch_space :: flag_prefix None ++ ch_dquote :: escape [97] ++ ch_bslash :: 110 :: [34]) = LnErr /\
+  (* (10) 5 <q>a/../b<q> *)
+  parse_line true (print_prio 5 ++ ch_space :: flag_prefix None ++ quote [97;47;46;46;47;98]) = LnErr.
+Proof. vm_compute. repeat split; reflexivity. Qed.
+
+Example ex_reject_hyps :
+  Forall plain_tok [kw_glob; [103;108;111]] /\
+  Forall (Forall (fun c => (c =? ch_rbracket) = false)) [kw_glob; [103;108;111]] /\
+  Exists (fun w => known_kw (trim w) = false) [kw_glob; [103;108;111]] /\
+  canon_result [97;47;46;46;47;98] = None /\
+  (s64lim <= 9223372036854775807).
+Proof.
+  split; [repeat constructor; try (eexists _, _; split; [reflexivity|discriminate])|].
+  split; [repeat constructor|].
+  split; [apply Exists_cons_tl, Exists_cons_hd; vm_compute; reflexivity|].
+  split; [vm_compute; reflexivity | vm_compute; discriminate].
+Qed.
+
+(* what the parser ACCEPTS although the manual page does not describe it (observations, props/C17/NOTES.md): an empty
+   flag list, both glob keywords (the last one decides), a quoted keyword, blanks around keywords, an unquoted name
+   with inner blanks; and what it REFUSES although the manual page lists it: the flag `align` (ex_reject_classes (6)) *)
+Example ex_accepted_oddities :
+  (* 5 [] a *)
+  parse_line true [53;32;91;93;32;97] = LnDir (mkdirective 5 false false 0 [97]) /\
+  (* 5 [glob,glob_no_path] a *)
+  parse_line true ([53;32;91] ++ kw_glob ++ [44] ++ kw_glob_no_path ++ [93;32;97]) = LnDir (mkdirective 5 true false 0 [97]) /\
+  (* 5 [<q>glob<q>, nosparse ] a *)
+  parse_line true ([53;32;91;34] ++ kw_glob ++ [34;44;32] ++ kw_nosparse ++ [32;93;32;97]) = LnDir (mkdirective 5 true true 16 [97]) /\
+  (* 5 a b  ->  name  a b *)
+  parse_line true [53;32;97;32;98] = LnDir (mkdirective 5 false false 0 [97;32;98]) /\
+  (* +5 a : no plus sign *)
+  parse_line true [43;53;32;97] = LnErr.
+Proof. vm_compute. repeat split; reflexivity. Qed.
